@@ -50,6 +50,7 @@ MAX_HANGS = 25                          # more than this: the check gives up (ex
 # supplied data
 # --------------------------------------------------------------------------------------
 
+TIME_NAMES = ('t', 't_minus_1')       # the parser's reserved names of the time axis and its lag
 LATE = ('late_ctor', 'late_parse')     # MaxTime line in the block, solver.MaxTime = cfg['late'] after parsing
 
 
@@ -260,13 +261,15 @@ def observe_series(cfg, sup, ts, prefix, getter=None):
         obs.append({'name': name, 'len': len(s), 'icv': icv, 'exov': exov, 'lagv': lagv,
                     'integral': integral, 'vals': vals})
     t = series.get('t')
-    taxis = t is not None and all(_eq(t[k], k) and _eq(t[k], float(k)) for k in range(len(t)))
-    return obs, taxis
+    # the automatic time axis: t[k] = k for k >= 1 (taxis); t[0] = 0 (taxis0, not demanded when t(0) is stated)
+    taxis = t is not None and all(_eq(t[k], k) and _eq(t[k], float(k)) for k in range(1, len(t)))
+    taxis0 = t is not None and len(t) >= 1 and _eq(t[0], 0) and _eq(t[0], 0.0)
+    return obs, taxis, taxis0
 
 
 def _no_solve(exc, dress):
     return {'ev': 'Solve', 'round': 1, 'dress': dress, 'ok': False, 'exc': exc, 'ts_empty': True, 'taxis': False,
-            'obs': []}
+            'taxis0': False, 'obs': []}
 
 
 # --------------------------------------------------------------------------------------
@@ -317,7 +320,8 @@ def run_round(solver, cfg, dress, fseed):
         return [pe, _no_solve(type(e).__name__, dress)], text_shown, solver
     if not cfg['solve']:
         return [pe], text_shown, solver
-    se = {'ev': 'Solve', 'dress': dress, 'ok': True, 'exc': '', 'ts_empty': False, 'taxis': False, 'obs': []}
+    se = {'ev': 'Solve', 'dress': dress, 'ok': True, 'exc': '', 'ts_empty': False, 'taxis': False, 'taxis0': False,
+          'obs': []}
     before = solver.TimeSeries
     try:
         solver.SolveEquation()
@@ -326,7 +330,7 @@ def run_round(solver, cfg, dress, fseed):
         se.update(ok=False, exc=type(e).__name__,
                   ts_empty=(solver.TimeSeries is before and (not fresh or len(before) == 0)))
         return [pe, se], text_shown, solver
-    se['obs'], se['taxis'] = observe_series(cfg, sup, solver.TimeSeries, '')
+    se['obs'], se['taxis'], se['taxis0'] = observe_series(cfg, sup, solver.TimeSeries, '')
     return [pe, se], text_shown, solver
 
 
@@ -419,11 +423,11 @@ def execute_model(cfg, dress, fseed):
         return [pe, _no_solve(name, dress)], text
     pe['classes'], pe['maxtime'] = observe_parser(solver.Parser, PREFIX)
     se = {'ev': 'Solve', 'round': 1, 'dress': dress, 'ok': True, 'exc': '', 'ts_empty': False, 'taxis': False,
-          'obs': []}
+          'taxis0': False, 'obs': []}
     if exc is not None:
         se.update(ok=False, exc=type(exc).__name__, ts_empty=(len(solver.TimeSeries) == 0))
         return [pe, se], text
-    se['obs'], se['taxis'] = observe_series(cfg, sup, solver.TimeSeries, PREFIX, getter=mod.GetTimeSeries)
+    se['obs'], se['taxis'], se['taxis0'] = observe_series(cfg, sup, solver.TimeSeries, PREFIX, getter=mod.GetTimeSeries)
     return [pe, se], text
 
 
@@ -479,10 +483,11 @@ def execute(case):
 # --------------------------------------------------------------------------------------
 
 def model_eligible(cfg):
-    """MaxTime always travels in the block; scalars stay at block level; a user time axis is a global equation
-    there, which AddInitialCondition (sector-bound) cannot address"""
+    """MaxTime always travels in the block; scalars stay at block level; the time axis is a global name there,
+    which AddInitialCondition and AddVariable (sector-bound, prefixed names) cannot address"""
     return cfg['where'] in ('block', 'both') and cfg['exo']['form'] in ('list', 'tuple', 'strexpr') \
-        and all(ic['name'] != 't' for ic in cfg['ics'])
+        and all(ic['name'] not in TIME_NAMES for ic in cfg['ics']) \
+        and all(v['name'] != 't_minus_1' for v in cfg['vars'])
 
 
 def var_class(cfg, name):
@@ -539,9 +544,15 @@ def signature(clause, case, events, rnd):
     if cfg['where'] in LATE:
         head += 'maxtime-assigned-after-parse-%s:' % ('larger' if cfg['late'] > cfg['horizon'] else 'smaller')
     if clause == 'C10_Lengths':
+        tic = sorted({ic['name'] for ic in cfg['ics'] if ic['name'] in TIME_NAMES})
+        if tic and not any(v['name'] == 't' for v in cfg['vars']):
+            head += 'ic-on-%s-without-equation-for-t:' % '+'.join(tic)
         bad = sorted({var_class(cfg, o['name']) for o in obs if o['len'] != h + 1})
         seen = {o['name'] for o in obs}
-        missing = sorted({var_class(cfg, v['name']) for v in cfg['vars'] if v['name'] not in seen})
+        required = [v['name'] for v in cfg['vars']] + ['k']
+        if not any(v['name'] in TIME_NAMES for v in cfg['vars']):
+            required.append('t')            # the automatic time axis
+        missing = sorted({var_class(cfg, n) for n in required if n not in seen})
         return head + 'len:' + ','.join(bad) + ('|missing:' + ','.join(missing) if missing else '') \
             + ':' + cfg['exo']['form']
     if clause == 'C10_ExoVerbatim':
@@ -556,6 +567,8 @@ def signature(clause, case, events, rnd):
         bad = sorted({var_class(cfg, srcs[o['name']]) for o in obs if o['name'] in srcs and not o['lagv']})
         return head + 'lag-of:' + ','.join(bad or ['ints'])
     if clause == 'C10_TimeAxis':
+        if any(ic['name'] in TIME_NAMES for ic in cfg['ics']):
+            head += 'ic-on-%s:' % '+'.join(sorted({ic['name'] for ic in cfg['ics'] if ic['name'] in TIME_NAMES}))
         return head + 'time-axis:' + ('deco' if cfg['reduce'] and var_class(cfg, 't') == 'time' else 'any')
     if clause == 'C10_Rejects':
         return head + 'accepted:' + '+'.join(rejected_why(cfg))
@@ -574,7 +587,7 @@ def make_cases(behs, seed, tier):
     cases = []
     for b in behs:
         cases.append({'plan': b['plan'], 'api': 'block', 'dress': 'int', 'fseed': 0})
-    p_float = 0.45 if quick else 0.4
+    p_float = 0.45 if quick else 0.3
     p_model = 0.60 if quick else 0.60
     for b in behs:
         plan = b['plan']
@@ -625,8 +638,8 @@ def judge(rep, cases, count=True):
 
 def run(rep):
     cfgs = ['MC_Horizon_quick.cfg'] if rep.tier == 'quick' else ['MC_Horizon_quick.cfg', 'MC_Horizon_thorough.cfg']
-    rep.rule = ('configurations = all initial states of the bounded Horizon instance (4 blueprints x exogenous form '
-                'and length x initial condition on none / each non-exogenous variable / all, as float, int or '
+    rep.rule = ('configurations = all initial states of the bounded Horizon instance (5 blueprints x exogenous form '
+                'and length x initial condition on none / each non-exogenous variable / all / the time axis t and t_minus_1 with and without an equation for t, as float, int or '
                 'undefined name x horizon x MaxTime in block / on solver before parsing / both with different values (solver wins, 0 included) / absent / in block and a larger or smaller value assigned to the solver after EquationSolver(block) or ParseString(block) x reduction on/off; plus histories of two blocks parsed one after the other into ONE solver object - first round with the horizon only in its block (ParseString or constructor, solved or only parsed) or written to the solver (before or late), second round with its own MaxTime line / none / solver written again / the kept solver value against another line), each solved by '
                 'TLC and emitted; every one is replayed at block level with its integer values, a seeded sample again '
                 'with random float values and through the model API; distinct = distinct (history, api, dress, '
